@@ -142,3 +142,16 @@ TEXTS["C08"] = {
     "note": TB + " PARTIAL: totality of the Go code itself is shown only on generated inputs; goroutine-level hangs and the signature-verification goroutines are exercised but not modelled; EVM/XVM execution is outside the op language.",
     "technique": "Lean 4 theorems on the executor-loop model (receipt count/order/height, contained panic) + differential correspondence under a malformed-input generator with crash detection",
 }
+
+TEXTS["C03"] = {
+    "text": "Proved on the model of verifyProofs / the invalid-reason short-circuit / applyTransaction: the verdict is `accepted` exactly for a well-formed proof whose origin parses, is local and whose bound rule accepts "
+            "(C03_verdict_none_iff); absent, hash-mismatching and plain-false proofs are always rejected (C03_bad_proof_rejected); an IBTP with any rejection reason gets a FAILED receipt, leaves every storage key and every "
+            "foreign balance untouched and is never listed (C03_unverified_ibtp_no_effect, via the journal lemmas of C07); in the block loop a transaction with a non-empty verdict never has a successful receipt "
+            "(C03_success_needs_verified_proof). For IBTPs relayed from another BitXHub the threshold loop of verifyMultiSign is modelled and proved: accepted iff more than (n-1)/3 signatures count, a signature counting only when it "
+            "recovers to a registered validator not counted before (C03_multisign_ok_iff, C03_bad_signature_never_counts, C03_validator_counted_once, C03_count_le_validators, C03_no_signature_rejected); the model is run against "
+            "the real function with real secp256k1 signatures (exhaustive small + random). On the real node a monitor brackets every unverified IBTP with state dumps and offers the same IBTPs to HandleIBTPData by direct calls. "
+            "One defect repaired (fix: a rule answering plain false crashed the executor).",
+    "note": TB + " PARTIAL: the rule engine's answer is a parameter (HappyRule / SimFabric rule of the harness world; plain false injected at the proof.Verify boundary); rule change / logout histories through governance and real wasm rules are not exercised; "
+            "HandleIBTPData is refused today only because the registry's contract instance has a nil service cache (observed, not proved).",
+    "technique": "Lean 4 theorems (verdict characterisation, no-effect via journal faithfulness, threshold loop invariant) + differential correspondence (executor; verifyMultiSign with real signatures) + state-dump monitor",
+}
